@@ -18,6 +18,7 @@ import (
 	"os/exec"
 	"sync"
 	"testing"
+	"unsafe"
 
 	"github.com/evanphx/json-patch/v5/xverif/calls"
 	"github.com/evanphx/json-patch/v5/xverif/ev"
@@ -114,6 +115,27 @@ func TestEvalCall(t *testing.T) {
 	r := calls.Exec(api, c, req.Bufs[c.A], req.Bufs[c.B], patch, perr, nil)
 	b, _ := json.Marshal(r)
 	fmt.Printf("RESULT %s\n", b)
+}
+
+// aliasesInput: out lies inside the storage of one of the input buffers (some
+// functions hand an argument back, e.g. a non-object merge patch): writing to
+// it would be the caller modifying its own input.
+func aliasesInput(out []byte, bufs []*calls.Buf) bool {
+	if len(out) == 0 {
+		return false
+	}
+	p := uintptr(unsafe.Pointer(&out[0]))
+	for _, b := range bufs {
+		full := b.B[:cap(b.B)]
+		if len(full) == 0 {
+			continue
+		}
+		base := uintptr(unsafe.Pointer(&full[0]))
+		if p >= base && p < base+uintptr(len(full)) {
+			return true
+		}
+	}
+	return false
 }
 
 // ---------- the history check ----------
@@ -217,8 +239,16 @@ func check(c Case) ev.Verdict {
 			return r, fmt.Errorf("call %d (%s) panicked: %s", step, cl.Fn, r.Panic)
 		}
 		if len(r.Out) > 0 {
-			outs = append(outs, kept{step, r.Out, append([]byte{}, r.Out...)})
+			lib := []byte(r.Out) // the slice the library handed back
 			r.Out = append(calls.Text{}, r.Out...)
+			if !aliasesInput(lib, bufs) {
+				// the caller owns what it was given: overwrite it. A library that kept or shares that
+				// memory (a constant returned for "no change", a pooled buffer) shows it in a later result
+				for i := range lib {
+					lib[i] = 'X'
+				}
+			}
+			outs = append(outs, kept{step, lib, append([]byte{}, lib...)})
 		}
 		if err := invariants(step, cl); err != nil {
 			return r, err
@@ -299,7 +329,7 @@ func check(c Case) ev.Verdict {
 	return v
 }
 
-const rule = "history = pool of 4-11 input buffers (documents that are spellings/mutations of one another, RFC 6902 patches drawn state-aware against them, merge patches, malformed texts; each allocated with 24 sentinel bytes of spare capacity) x 4-40 calls drawn from DecodePatch, Apply, ApplyIndent, ApplyWithOptions, ApplyIndentWithOptions, operation accessors, MergePatch, MergeMergePatches, CreateMergePatch, Equal (and, one step in 25, two garbage collections, which empty the codec's pools) with arguments mostly in role and sometimes any buffer in any role; one Patch value per patch buffer is decoded once and reused (1 call in 5 decodes afresh); the history is run forwards and then again in reverse order; up to 3 (v5) / 2 (legacy) calls are also evaluated as the only call of a fresh process; non-trivial = one shared Patch value was applied successfully to >=2 different documents and a failing call (error, or Equal=false) precedes a successful one; distinct = distinct serialised history"
+const rule = "history = pool of 4-11 input buffers (documents that are spellings/mutations of one another, RFC 6902 patches drawn state-aware against them, merge patches, malformed texts; each allocated with 24 sentinel bytes of spare capacity) x 4-40 calls drawn from DecodePatch, Apply, ApplyIndent, ApplyWithOptions, ApplyIndentWithOptions, operation accessors, MergePatch, MergeMergePatches, CreateMergePatch, Equal (and, one step in 25, two garbage collections, which empty the codec's pools) with arguments mostly in role and sometimes any buffer in any role; one Patch value per patch buffer is decoded once and reused (1 call in 5 decodes afresh); every byte slice a call returns is overwritten by the harness right away (the caller owns it; slices that alias an input buffer are left alone) and must stay as overwritten; the history is run forwards and then again in reverse order; up to 3 (v5) / 2 (legacy) calls are also evaluated as the only call of a fresh process; non-trivial = one shared Patch value was applied successfully to >=2 different documents and a failing call (error, or Equal=false) precedes a successful one; distinct = distinct serialised history"
 
 var unitV5 = ev.Unit[Case]{Name: "history-v5", Rule: rule, Draw: draw("v5", 3), Check: check}
 var unitLegacy = ev.Unit[Case]{Name: "history-legacy", Rule: rule, Draw: draw("legacy", 2), Check: check}
